@@ -165,6 +165,13 @@ fn same_class(j: &Judged, class: &str) -> bool {
 pub fn minimise(prop: &str, sc: &Scenario, aux: Option<&Scenario>, class: &str) -> (Scenario, Option<Scenario>) {
     let mut best = sc.clone();
     let mut best_aux = aux.cloned();
+    if let Some(x) = aux {
+        if x.steps.len() != sc.steps.len() {
+            // differential case with an explicitly constructed reference: already structured
+            // and small, and removing steps on one side only would change what is compared
+            return (best, best_aux);
+        }
+    }
     let mut evals = 0usize;
     let budget = 1500usize;
     let differential = aux.is_some();
@@ -596,10 +603,16 @@ pub fn run_replay(path: &str) -> i32 {
     let j = judge(&rf.property, &rf.scenario, rf.aux.as_ref());
     let w = replay(&rf.scenario);
     for (i, e) in w.events().iter().enumerate() {
-        println!("{i:4} {:?}", e);
+        let line = format!("{:?}", e);
+        if line.len() > 400 {
+            println!("{i:4} {}… [{} chars]", line.chars().take(400).collect::<String>(), line.len());
+        } else {
+            println!("{i:4} {line}");
+        }
     }
     for p in &w.wire {
-        println!("wire conn{} @{}+{} [{}..{}] {:?}", p.conn, p.off, p.len, p.seq_first, p.seq_last, p.pkt);
+        let line = format!("{:?}", p.pkt);
+        println!("wire conn{} @{}+{} [{}..{}] {}", p.conn, p.off, p.len, p.seq_first, p.seq_last, line.chars().take(300).collect::<String>());
     }
     for x in &j.violations {
         println!("violation {}: {}", x.class, x.message);
